@@ -146,8 +146,17 @@ def run(prog, tier):
             ex_.on_if = refresh_arm
             return guard(lambda: ex_.run(fn_.body, {fn_.args.args[1].arg: theta}))
 
-        for m_ in ("__call__", "gradient"):
-            o_ = refresh_obligation(prog, "cache-key", ci.name, m_)
+        memo_methods = ["__call__", "gradient"] + sorted(m2 for c2 in prog.mro(ci) for m2 in c2.methods
+                                                       if m2 not in ("__call__", "gradient", "__init__") and c2.name != "object")
+        seen_m = set()
+        for m_ in memo_methods:
+            if m_ in seen_m or prog.find_method(ci, m_)[1] is None or not prog.find_method(ci, m_)[1].args.args:
+                continue
+            seen_m.add(m_)
+            try:
+                o_ = refresh_obligation(prog, "cache-key", ci.name, m_)
+            except Exception:
+                continue
             if not o_.ok or o_.slots.get("conditional"):
                 o_.construct += f"[{ci.name}]"
                 obs.append(o_)
